@@ -262,6 +262,21 @@ def valid_serialisations(ctx, case, cname, n, lossless=False):
     return out
 
 
+def _has_optional_length(info, cname) -> bool:
+    def walk(body):
+        for it in body.items:
+            if it.k == "length" and it.optional:
+                return True
+            for c in getattr(it, "cases", []) or []:
+                if c.body is not None and walk(c.body):
+                    return True
+        return False
+    try:
+        return walk(info.bodies[cname])
+    except Exception:  # noqa: BLE001
+        return False
+
+
 def run_c03(ctx: Ctx, avoid_known_bugs=True):
     rng = ctx.rng
     n_in = n_spec = 0
@@ -324,6 +339,10 @@ def run_c03(ctx: Ctx, avoid_known_bugs=True):
                             e = real.split()[1]
                             if e != "ValueError" or spec != "err ValueError":
                                 key = "de:" + e
+                                if e == "TypeError" and _has_optional_length(case.info, cname):
+                                    # an absent optional <length> used as the count / size of a later item (only possible
+                                    # across a <break/>): recorded finding, see known_findings.json
+                                    key = "de:TypeError:optional-length-absent"
                                 fails(ctx, case, f"{cname}.deserialize({common.tohex(data)}, chunked={ch}) raised {e}; the reading rules give "
                                       f"`{spec[:120]}`", detail, key=key)
                                 if not ctx.known_match(key):
@@ -380,6 +399,10 @@ def run_c01(ctx: Ctx):
                     try:
                         back = _with_alarm(lambda: cls.deserialize(reader), 2.0)
                     except Exception as ex:  # noqa: BLE001
+                        dom0 = ctx.driver.ask([f"gen rtdomain {cname} {ro.rsplit(' ', 1)[0]} 0"])[0]
+                        if dom0.startswith("ok ") and dom0 != "ok unambiguous 1 rtvalue 1":
+                            ctx.count("outside_theorem_domain.deserialize_raises")   # a fault of the sampler, see below
+                            continue
                         fails(ctx, case, f"{cname}: deserialising its own serialisation {common.tohex(data)} raised {type(ex).__name__}: {ex}",
                               {"class": cname, "object": ro, "bytes": common.tohex(data)})
                         return
